@@ -59,6 +59,9 @@ class EvalCtx(object):
         #     print('^^^' + '  '*self.level, node_type, node)
 
         if node_type is AstName:
+            if not hasattr(node, 'flow'):
+                # a read the analysis did not visit (lint: E42)
+                return None
             names = node.flow.names_at(np(node))
             name = names.get(node.id)
             if name:
@@ -106,6 +109,9 @@ class EvalCtx(object):
         cname = None
         if node_type is AstName:
             ast_name = node  # type: AstName # type: ignore[assignment]
+            if not hasattr(ast_name, 'flow'):
+                # a read the analysis did not visit (lint: E42)
+                return result
             names = ast_name.flow.names_at(np(ast_name))  # type: ignore[attr-defined]
             cname = names.get(ast_name.id)
         elif node_type is MultiName:
